@@ -281,7 +281,7 @@ func (store *HStore) getBucket(bucketID int) *Bucket {
 }
 
 func (store *HStore) GC(bucketID, beginChunkID, endChunkID, noGCDays int, merge, pretend bool) (begin, end int, err error) {
-	if bucketID >= Conf.NumBucket {
+	if bucketID < 0 || bucketID >= Conf.NumBucket {
 		err = fmt.Errorf("bad bucket id: %d", bucketID)
 		return
 	}
